@@ -14,7 +14,7 @@ RUNNER = os.path.join(ML, "runner")
 TRUSTED_BASE = [
     "Coq 8.16.1 kernel incl. its bytecode VM (vm_compute in the in-Coq case evaluation, refutation witnesses and finite sweeps); no native_compute",
     "axioms: none (every Print Assumptions reports 'Closed under the global context'; standard library only: List, NArith, ZArith, Lia, Bool, Byte, PeanoNat, Zify*)",
-    "tools/gen_tables.py: translator of the enum/constant tables and of the decoder's opcode dispatch (the match in parse_request) of the Rust sources into Model/Generated.v",
+    "tools/gen_tables.py + tools/rsexpr.py: translator of the Rust sources into Model/Generated.v — enum/constant tables; the decoder's opcode dispatch, the request variant each body parser builds, the handler's routing (request variant -> handler -> filter); and, as Rust integer expressions with overflow = None (Model/RustInt.v), header_valid, request_valid, every comparison with the item size limit, the expiry tests of check_if_expired, the re-dating test of a delayed flush, the counter arithmetic of add_delta, and the field order/widths of both headers. Regex/recursive-descent over the source text, not a Rust front end: a function whose shape it does not recognise is reported (coverage.not_translated) and left to the correspondence check alone",
     "extraction: Require Extraction + ExtrOcamlBasic (Extract Inductive for bool, option, unit, list, prod, sumbool; no Extract Constant), OCaml 4.13.1, runner/runner.ml glue (hex/decimal parsing, Obj.magic int<->byte self-checked at start-up); the glue is cross-checked by evaluating a sample of every kind of case inside Coq",
     "correspondence: Rust harness (generators, canonicalisation, seq connection emulation, schedulers, logging Cache interposers Spy/ScanSpy/OuterSpy, timed probes) — differential testing, bounds the assurance",
     "hooks in /repo under cfg(memcrs_verif) (usage accessor, read begin/end + sizes, TracedMap yields, counter yields, per-connection write count): assumed to observe without changing behaviour",
@@ -164,7 +164,7 @@ def ensure_runner(timeout=900):
     ok, out = ensure_makefile()
     if not ok:
         return False, out
-    rc, out = sh("make -j16 Model/Obs.vo Model/Conc.vo Model/Server.vo Model/Config.vo Model/PolConc.vo Spec/Atomic.vo Spec/AtomicM.vo", cwd=COQ, timeout=timeout)
+    rc, out = sh("make -j16 Model/Obs.vo Model/Conc.vo Model/Server.vo Model/Config.vo Model/PolConc.vo Model/Listeners.vo Spec/Atomic.vo Spec/AtomicM.vo", cwd=COQ, timeout=timeout)
     if rc != 0:
         return False, out
     model_vos = [os.path.join(COQ, "Model", f) for f in os.listdir(os.path.join(COQ, "Model")) if f.endswith(".vo")]
@@ -500,16 +500,20 @@ PROPS = {
             "conn": [("big", 1048576, None, 4, 14)], "conc": [("base", 200)], "slow": True,
             "monitor_kinds": ["STUCK", "SLOW"], "relevant": "RMWT"},
     "C02": {"seq": [("cas", 1024, None, 80, 50), ("mix", 1024, None, 30, 40), ("ttl", 1024, None, 30, 40),
-                    ("counter", 1024, None, 30, 40)], "conc": [("base", 200)], "monitor_kinds": ["STUCK"], "relevant": "RMWT"},
+                    ("counter", 1024, None, 30, 40)], "conc": [("base", 200)], "pol": 100,
+            "monitor_kinds": ["STUCK", "NONLIN"], "relevant": "RMWTP"},
     "C03": {"seq": [("cas", 1024, None, 20, 30)], "conc": [("base", 500)], "pol": 150, "relevant": "RMTP"},
     "C04": {"seq": [("counter", 1024, None, 20, 30)], "conc": [("rmw", 500)], "relevant": "RMT",
             "known_classes": True},
     "C16": {"seq": [("policy", 1024, 200, 10, 30)], "conc": [("base", 250), ("rmw", 250)], "sweep": 300, "pol": 100, "relevant": "T",
             "monitor_kinds": ["STUCK"]},
     "C05": {"seq": [("ttl", 1024, None, 80, 50), ("flush", 1024, None, 60, 50), ("mix", 1024, None, 30, 40)],
-            "conc": [("ttl", 300)], "monitor_kinds": ["STUCK"], "relevant": "RMWT"},
+            "conc": [("ttl", 300)], "monitor_kinds": ["STUCK", "NONLIN"], "known_classes": True, "known_from": "C04",
+            "relevant": "RMWT"},
     "C06": {"seq": [("mix", 1024, None, 60, 40), ("cas", 1024, None, 40, 40), ("ttl", 1024, None, 40, 40),
-                    ("flush", 1024, None, 20, 40), ("mix", 64, None, 20, 40)], "relevant": "RMW"},
+                    ("flush", 1024, None, 20, 40), ("mix", 64, None, 20, 40)],
+            "conc": [("ttl", 300)], "monitor_kinds": ["STUCK", "NONLIN"], "known_classes": True, "known_from": "C04",
+            "relevant": "RMWT"},
     "C07": {"seq": [("counter", 1024, None, 100, 50), ("cas", 1024, None, 20, 40), ("ttl", 1024, None, 20, 40)],
             "relevant": "RMW"},
     "C08": {"seq": [("flush", 1024, None, 80, 50), ("ttl", 1024, None, 40, 50), ("cas", 1024, None, 30, 40),
@@ -535,11 +539,11 @@ PROPS = {
     "C14": {"seq": [("policy", 1024, 100, 40, 60), ("policy", 1024, 300, 40, 60), ("policy", 1024, 30, 20, 60),
                     ("policy", 1024, 1000, 30, 60), ("counter", 1024, 120, 20, 50), ("flush", 1024, 200, 20, 50)],
             "conn": [("policy", 1024, 300, 15, 30)], "pol": 150, "relevant": "UMRP",
-            "monitor_kinds": ["ACCT", "BOUND", "STUCK"]},
+            "monitor_kinds": ["ACCT", "BOUND", "STUCK", "NONLIN"]},
     "C15": {"seq": [("policy", 1024, 100000, 40, 80), ("policy", 1024, 400, 40, 60), ("ttl", 1024, 500, 30, 60),
                     ("flush", 1024, 500, 30, 60), ("cas", 1024, 500, 30, 50), ("counter", 1024, 500, 20, 50)],
-            "pol": 150, "relevant": "UMRP", "monitor_kinds": ["ACCT", "BOUND", "STUCK"]},
-    "C17": {"seq": [("mix", 1024, None, 10, 20)], "limit": 8, "relevant": "V", "no_minimize": True},
+            "pol": 150, "relevant": "UMRP", "monitor_kinds": ["ACCT", "BOUND", "STUCK", "NONLIN"]},
+    "C17": {"seq": [("mix", 1024, None, 10, 20)], "limit": 8, "mlimit": 6, "cfg": 6, "relevant": "VS", "no_minimize": True},
     "C20": {"seq": [("mix", 1024, 1000000, 30, 40), ("mix", 1024, None, 10, 30)], "cfg": 8, "relevant": "RSCT"},
     "C18": {"seq": [("cuts", 1024, None, 60, 30), ("malformed", 1024, None, 40, 30)],
             "conn": [("cuts", 1024, None, 30, 25), ("malformed", 1024, None, 30, 25), ("mix", 1024, None, 20, 25)],
@@ -567,6 +571,39 @@ def load_known():
                 d["what"] = m.group(1) if m else line
                 known.append(d)
     return known
+
+
+def coq_mlimit(trace_text, model_text, work):
+    """every mlimit case as an Example over Listeners.served_trace, closed by vm_compute"""
+    want = dict(split_cases(model_text))
+    lines = ["From MC Require Import Model.Base Model.Conn Model.Server Model.Listeners.", "Open Scope nat_scope.", ""]
+    n = 0
+    for cid, tl in split_cases(trace_text):
+        limit, evs = None, []
+        for l in tl[1:]:
+            p = l.split(" ")
+            if p[0] == "MLIMIT":
+                limit = int(p[1])
+            elif p[0] == "MCONN":
+                evs.append("LEv (MConnect %d %d)" % (int(p[2]), int(p[1])))
+            elif p[0] == "MEND":
+                evs.append("LEv (MEnd %d WEof)" % int(p[1]))
+            elif p[0] == "MPROBE":
+                evs.append("LProbe %d" % int(p[1]))
+        if limit is None:
+            continue
+        served = [l.split(" ")[2] == "1" for l in want.get(cid, [])[1:] if l.startswith("SERVED ")]
+        lines.append("Example ml_%d : served_trace (new_mserver %d%%N) [%s] = [%s]." % (
+            n, limit, "; ".join(evs), "; ".join("true" if b else "false" for b in served)))
+        lines.append("Proof. vm_compute. reflexivity. Qed.")
+        n += 1
+    if n == 0:
+        return True, ""
+    f = os.path.join(work, "mlimit_cases.v")
+    with open(f, "w") as fh:
+        fh.write("\n".join(lines) + "\n")
+    rc, out = sh("coqc -q -noglob -Q %s MC %s" % (COQ, f), cwd=work, timeout=600)
+    return rc == 0, out
 
 
 def run_conc_suites(prop, cfg, tier, seed, work, report):
@@ -667,6 +704,38 @@ def run_conc_suites(prop, cfg, tier, seed, work, report):
                     report["distribution"][k] = report["distribution"].get(k, 0) + v
                 for x in d:
                     diffs.append((tag,) + x)
+                if not report["samples"]:
+                    cs = split_cases(txt)
+                    if cs:
+                        report["samples"].append({"suite": tag, "trace": cs[0][1][:14]})
+                report["suites"].append(tag)
+    if cfg.get("mlimit"):
+        # several listeners (clones of one server, one thread and runtime each) over one limit:
+        # implementation vs Model/Listeners.v, and the same histories evaluated inside Coq
+        tag = "mlimit"
+        tout, iobs, mobs, st = [os.path.join(work, tag + e) for e in (".trace", ".impl", ".model", ".stats")]
+        ncases = cfg["mlimit"] if tier == "quick" else cfg["mlimit"] * 8
+        cmd = [HBIN, "mlimit-gen", "--seed", str(seed), "--cases", str(ncases), "--events", "14" if tier == "quick" else "24",
+               "--trace", tout, "--obs", iobs, "--stats", st]
+        rc, out = sh(cmd, timeout=3000)
+        if rc != 0:
+            report["errors"].append("harness failed on suite mlimit: %s" % out[-500:])
+        else:
+            ok, out = run_model(tout, mobs)
+            if not ok:
+                report["errors"].append("runner failed on mlimit: %s" % out[-500:])
+            else:
+                d, ncs = compare(tout, iobs, mobs)
+                report["cases"] += ncs
+                txt = open(tout).read()
+                report["events"] += sum(1 for l in txt.splitlines() if l.split(" ")[0] in ("MCONN", "MEND", "MPROBE"))
+                for k, v in json.load(open(st)).items():
+                    report["distribution"][k] = report["distribution"].get(k, 0) + v
+                for x in d:
+                    diffs.append((tag,) + x)
+                okc, outc = coq_mlimit(txt, open(mobs).read(), work)
+                if not okc:
+                    report["errors"].append("in-Coq evaluation of the listener histories disagrees with the extracted runner: " + outc[-800:])
                 if not report["samples"]:
                     cs = split_cases(txt)
                     if cs:
